@@ -148,7 +148,7 @@ def equivariance_case(case):
 
 def explorers(tier, seed):
     thorough = tier == "thorough"
-    shapes = [(2, 1, 2), (2, 2, 2), (2, 3, 2), (2, 4, 2), (2, 2, 4), (2, 3, 4), (3, 1, 2), (3, 2, 2), (3, 3, 2), (3, 2, 4), (4, 2, 2), (5, 2, 2)]
+    shapes = [(1, 1, 2), (1, 3, 2), (2, 1, 2), (2, 2, 2), (2, 3, 2), (2, 4, 2), (2, 2, 4), (2, 3, 4), (3, 1, 2), (3, 2, 2), (3, 3, 2), (3, 2, 4), (4, 2, 2), (5, 2, 2)]
     if thorough:
         shapes += [(3, 4, 2), (3, 3, 4), (4, 3, 2), (2, 5, 2), (2, 4, 4)]
     c1 = []
